@@ -21,7 +21,7 @@ import (
 
 type Buf []uint16
 
-func BufOf(s string) Buf { return utf16.Encode([]rune(s)) }
+func BufOf(s string) Buf     { return utf16.Encode([]rune(s)) }
 func (b Buf) String() string { return string(utf16.Decode(b)) }
 
 // offset converts an LSP position to an index into b.
